@@ -6,7 +6,7 @@ from ..genmod import Builder
 
 EXTRA = ["COMMAND", "exe", "${exe}", '"my exe"', "--x", "WORKING_DIRECTORY", "${CMAKE_BINARY_DIR}", "CONFIGURATIONS", "Debug",
          "MYNAME", "NAME_X", "XNAME", "EXPECTFAILURE", "NOEXPECTFAIL", "COMMAND_EXPAND_LISTS", "-DNAME=1", '"NAME"',
-         "[[NAME]]", "a;b", "name_", "expectfail_", "$<TARGET_FILE:t>", '"printf \'%s|%s\'  a   b"', '"tab\there"', "[[two  blanks  inside]]",
+         "[[NAME]]", "a;b", "-DITEMS=a\\;b\\;c", '"C:\\\\tools\\\\run.exe"', "check\\.version", '"say \\"hi\\""', "name_", "expectfail_", "$<TARGET_FILE:t>", '"printf \'%s|%s\'  a   b"', '"tab\there"', "[[two  blanks  inside]]",
          '"  leading and trailing  "', "fail", "expect", "T", "x", "a", "me", "NAM", "ame"]
 CT_EXTRA = ["PRINT_ERRORS", "5", "MYNAME", "EXPECTFAILURE", "XEXPECTFAIL", "${opt}", '"EXPECTFAIL"', "[[EXPECTFAIL]]", "LABEL",
             "fail", "expect", "E", "IL", "T", "x", "pectf", "Fail", "a", "me", "NAM", "am"]
@@ -37,7 +37,8 @@ class TBuilder(Builder):
             nm = r.choice(FRAGMENT_NAMES)        # a name that happens to be a fragment of a keyword
         elif r.random() < 0.15:
             # legal CMake names that are not identifiers of the implementation language
-            nm = r.choice([f"tst-N{uid}Z", f"to.N{uid}Z", f"2nd_N{uid}Z", f"c++N{uid}Z", "${pfx}N%dZ" % uid, f"N{uid}Z/x", f"ünïN{uid}Z"])
+            nm = r.choice([f"tst-N{uid}Z", f"to.N{uid}Z", f"2nd_N{uid}Z", f"c++N{uid}Z", "${pfx}N%dZ" % uid, f"N{uid}Z/x", f"ünïN{uid}Z",
+                           f"chk\\.N{uid}Z", f"N{uid}Z\\;v2"])
         if section and self.section_names and r.random() < 0.15:
             nm = r.choice(self.section_names)        # the same section name again, e.g. in another test
             self.reused_names += 1
